@@ -86,11 +86,15 @@ func FilterPlanFromSeed(seed int64, idx int, class int) FilterPlan {
 	p.Reorgs = []int{0, 0, 1, 2}[r.Intn(4)]
 	p.Growth = []int{0, 1, 3, 40}[r.Intn(4)]
 	if class == 2 {
-		switch r.Intn(4) {
+		switch r.Intn(5) {
 		case 0:
 			p.ReorgAt = "cf.beforeWrite"
 		case 1:
 			p.ReorgAt = "cf.afterWrite"
+		case 2:
+			// Right after the block manager looked up the blocks a
+			// filter-header batch covers (a hook in the store it is given).
+			p.ReorgAt = "store.afterAncestors"
 		}
 		if p.ChainLen >= 1000 && r.Intn(2) == 0 {
 			p.FilterCPs = []int32{1000}
@@ -159,7 +163,7 @@ func RunFilterSession(plan FilterPlan, onStep func(fs *FilterSession, st *StepOb
 	injected := false
 	if plan.ReorgAt != "" {
 		s.NoMidProbe = true
-		neutrino.VerifSetPointHook(func(name string) {
+		inject := func(name string) {
 			if name != plan.ReorgAt || injected {
 				return
 			}
@@ -190,8 +194,13 @@ func RunFilterSession(plan FilterPlan, onStep func(fs *FilterSession, st *StepOb
 			case <-time.After(150 * time.Millisecond):
 				s.note("injected reorg is excluded from the window (blocked); releasing")
 			}
-		})
+		}
+		neutrino.VerifSetPointHook(inject)
 		defer neutrino.VerifSetPointHook(nil)
+		if plan.ReorgAt == "store.afterAncestors" {
+			s.hooked.setAfterAncestors(func() { inject("store.afterAncestors") })
+			defer s.hooked.setAfterAncestors(nil)
+		}
 	}
 
 	reorgsLeft := plan.Reorgs
